@@ -392,6 +392,7 @@ func runC04(c *Ctx) {
 	r.Doc("L1", "batch loop: counted 0..Limit.Quantity step 1; one receive and one output write per iteration; output written nowhere else", 3)
 	r.Doc("L2", "two batches are always separated by the delay (typestate over the outer loop)", 1)
 	r.Doc("L3", "sleep amount = Interval - elapsed, clock read before the batch and after it", 1)
+	r.Doc("L4", "the output buffer is no larger than 1+cap(Input): a stalled consumer cannot collect a burst beyond what the input buffer already allows", 1)
 	lr := resolveLimit(c, "L1")
 	if lr == nil {
 		return
@@ -511,6 +512,49 @@ func runC04(c *Ctx) {
 	fl.Run(lr.entry, []string{"fresh"})
 	r.Check(len(bad) == 0, "L2", p.FnKey(lr.outer), p.Pos(lr.outer.Pos()), "batch -> delay -> batch on every path", strings.Join(dedup(bad), "; "))
 	limitSleepShape(c, lr, "L3", false)
+	// L4: capacity of the output channel
+	okCap := false
+	what := "output channel not made in the constructor"
+	for _, ctor := range lr.d.Ctors {
+		for _, b := range ctor.Blocks {
+			for _, in := range b.Instrs {
+				st, ok := fieldStore(in, "output")
+				if !ok {
+					continue
+				}
+				mc, ok := st.Val.(*ssa.MakeChan)
+				if !ok {
+					what = "output is not a freshly made channel"
+					continue
+				}
+				sz := deepStrip(p.Sym(mc.Size))
+				what = "capacity " + sz.String()
+				isCapInput := func(x *Sym) bool {
+					if x.Op == "call" && x.Name == "cap" && len(x.Args) == 1 {
+						_, path, okp := x.Args[0].FieldPath()
+						return okp && path[len(path)-1] == "Input"
+					}
+					return false
+				}
+				if k, isK := symConstInt(sz); isK && k <= 1 {
+					okCap = true
+				}
+				if isCapInput(sz) {
+					okCap = true
+				}
+				if sz.Op == "bin" && sz.Name == "+" {
+					a, bb := sz.Args[0], sz.Args[1]
+					if k, isK := symConstInt(a); isK && k <= 1 && isCapInput(bb) {
+						okCap = true
+					}
+					if k, isK := symConstInt(bb); isK && k <= 1 && isCapInput(a) {
+						okCap = true
+					}
+				}
+			}
+		}
+	}
+	r.Check(okCap, "L4", p.FnKey(lr.d.Ctors[0])+"#output-capacity", p.Pos(lr.d.Ctors[0].Pos()), what, "the output channel is made with "+what+", more than 1+cap(Input): while the consumer stalls the discipline keeps filling it at the limited rate and the consumer then receives the whole backlog at once, far above Quantity*(floor(W/Interval)+2) per window")
 }
 
 func phiCountsFromZeroByOne(ph *ssa.Phi, loop map[*ssa.BasicBlock]bool) bool {
